@@ -91,7 +91,7 @@ PvOpts == IF PvSet THEN {"ok", "bad"} ELSE {"ok"}
 UnaryCalls(nlogs, lvls) ==
     [k : {"unary"}, m : {"u_val", "u_void"}, pm : {"ok"}, pv : PvOpts, logs : LogSeqs(nlogs),
      lvl : lvls, o : Outcomes]
-    \cup [k : {"unary"}, m : {"u_val", "u_void"}, pm : {"mismatch"}, pv : PvOpts, logs : {<<>>},
+    \cup [k : {"unary"}, m : {"u_val", "u_void"}, pm : {"mismatch", "zrowloc"}, pv : PvOpts, logs : {<<>>},
           lvl : {""}, o : {"value"}]
 
 PreSeqs(n) == UNION { [1..k -> {"emit", "emitlogs"}] : k \in 0..n }
@@ -274,7 +274,7 @@ HookEvents(h, m, e) ==
     IF HookMode \in {"ok", "panic_end"} THEN Append(h, <<"end", m, e # "">>) ELSE h
 
 ParamsMismatch ==
-    /\ pc = "params" /\ cur.pm = "mismatch"
+    /\ pc = "params" /\ cur.pm # "ok"   \* "mismatch": another schema; "zrowloc": an unresolved zero-row pointer batch
     /\ inq' = IF IsStream(cur) /\ DrainOnRefusal THEN Tail(inq) ELSE inq
     /\ Finish(<< <<Exc("TypeError", "")>> >>, <<>>, HookEvents(hk, cur.m, "TypeError"), "read")
     /\ UNCHANGED <<cur, ncalls, closed>>
